@@ -145,7 +145,7 @@ func (x *Exec) callContract(st *State, con *Contract, callee *ssa.Function, args
 	st.callSeq[short]++
 	seq := st.callSeq[short]
 	x.traceEvent(st, short, args, vars, site)
-	x.atCallChecks(st, short, seq, vars, site)
+	x.atCallChecks(st, short, seq, vars, site, con)
 	if x.thorough {
 		st.script = append(st.script, entry{kind: 'v', name: fmt.Sprintf("cover:before %s#%d@%s", short, seq, site)})
 	}
@@ -479,6 +479,12 @@ func (x *Exec) callFuncValue(st *State, cc *ssa.CallCommon, fv Val, args []Val, 
 	if pv.owner != nil {
 		ov := x.val(st, pv.owner)
 		args = append([]Val{ov}, args...)
+	}
+	// calls through a function variable of a unit that declares `norank` (wrapper literals calling the previous link of a
+	// finite chain) are exempt from the termination obligation: a hypothesis, listed in the evidence
+	if n := paramNameOf(cc.Value); n != "?" && x.con != nil && (x.con.NoRank[n] || x.con.NoRank["*"]) {
+		x.noRankCall = true
+		defer func() { x.noRankCall = false }()
 	}
 	setResult(x.callContract(st, con, callee, args, nil, site))
 }
@@ -838,6 +844,9 @@ func (x *Exec) conforms(fk, sk string) (bool, string) {
 			return false, fk + " modifies " + m + " outside the frame of " + sk
 		}
 	}
+	if sc.Rank > 0 && (fc.Rank == 0 || fc.Rank > sc.Rank) {
+		return false, fmt.Sprintf("%s has termination rank %d, the slot %s allows at most %d", fk, fc.Rank, sk, sc.Rank)
+	}
 	return true, ""
 }
 
@@ -1185,11 +1194,20 @@ func (x *Exec) traceCall(st *State, name string, args []Val, site string) {
 
 // atCallChecks emits the obligations "atcall <callee> [label] expr" of the unit's contract: expr must hold in the state in
 // which the unit calls callee (old() = the unit's entry state).
-func (x *Exec) atCallChecks(st *State, short string, seq int, calleeVars map[string]Val, site string) {
+func (x *Exec) atCallChecks(st *State, short string, seq int, calleeVars map[string]Val, site string, calleeCon *Contract) {
 	if x.con == nil || len(st.frames) != 1 {
 		return
 	}
 	for i, cl := range x.con.AtCalls {
+		if cl.Ranked {
+			// termination: a ranked callee of lower rank needs nothing; otherwise the measure must have dropped
+			if calleeCon == nil || calleeCon.Rank == 0 || x.noRankCall || x.con.NoRank["*"] {
+				continue
+			}
+			if x.con.Rank > 0 && calleeCon.Rank < x.con.Rank {
+				continue
+			}
+		}
 		callee := cl.Callee
 		if i := strings.Index(callee, ":"); i > 0 {
 			callee = callee[i+1:]
